@@ -24,7 +24,7 @@ BASES = [0, 0o1000, 0o100000, 0o177776]
 
 
 def bound(tier):
-    return "complete for the listed product (lengths 0..300 + 6 large, 10 content families, 4 bases, 34 names, 4 formats); %d CLI layouts (incl. standard input/output)" % len(CLI_LAYOUTS)
+    return "complete for the listed product (lengths 0..%d + 6 large, 10 content families, 4 bases, 34 names, 4 formats); %d CLI layouts (incl. standard input/output)" % (2048 if tier == "thorough" else 300, len(CLI_LAYOUTS))
 
 
 def content(family, n):
@@ -61,8 +61,9 @@ def names():
 
 
 def cases(tier):
-    for L in range(0, 301, 10):
-        yield {"k": "fmt", "lens": list(range(L, min(L + 10, 301)))}
+    top = 2049 if tier == "thorough" else 301
+    for L in range(0, top, 10):
+        yield {"k": "fmt", "lens": list(range(L, min(L + 10, top)))}
     yield {"k": "fmt-big"}
     yield {"k": "fmt-special"}
     yield {"k": "fmt-names"}
